@@ -6,7 +6,8 @@ EXTENDS JetProg
 CONSTANTS Depth
 
 Sites   == {"include", "includectx", "exec", "execctx", "incif", "incifctx", "incifmissing", "includemissing", "execmissing",
-            "incifbroken", "includebroken", "execbroken", "includecomputed", "execctxnil", "includectxnil", "incifctxnil"}
+            "incifbroken", "includebroken", "execbroken", "includecomputed", "execctxnil", "includectxnil", "incifctxnil",
+            "execown", "issetexecown", "includeown", "incifown"}     \* the callee defines a block named like one of the caller's
 Shapes  == {"plain", "ext1", "ext2", "ext2r"}   \* ext2r: two levels of extends, the root layout ends with a return of its own
 Returns == {"none", "top", "two", "inif", "inelse", "inrange", "intry", "nested", "thenif", "thentry", "theninclude", "nilret", "incatch", "incatchvar", "afterfailedtry", "retctx", "thenrangeelse", "thenrange", "thenifelse"}
 SiteKinds == {"range", "ycont", "tryin", "include", "iflet"}
@@ -61,6 +62,11 @@ MkC(par) ==
                 [] site = "incifbroken"    -> <<IncIf("call", BrokenName)>>
                 [] site = "includebroken"  -> <<Incl("call", BrokenName)>>
                 [] site = "execbroken"     -> <<ExecLet("call", "r", BrokenName)>>
+                \* the callee has a block "ib" of its own: the caller's "ib" is what the caller yields afterwards
+                [] site = "execown"        -> <<ExecLet("call", "r", "calown"), YieldS("fy", "ib", <<>>, NoE)>>
+                [] site = "issetexecown"   -> <<IsSetExec("call", "calown"), YieldS("fy", "ib", <<>>, NoE)>>      \* exec called outside any :=
+                [] site = "includeown"     -> <<Incl("call", "calown"), YieldS("fy", "ib", <<>>, NoE)>>
+                [] site = "incifown"       -> <<IncIf("call", "calown"), YieldS("fy", "ib", <<>>, NoE)>>
                 \* one call site, a different template each time round
                 [] site = "includecomputed" -> <<RangeS("ccr", "none", "", "", "", ListE("slice", <<"cca", "ccb", "cal3", "cca">>), <<Incl("call", "@ctx")>>)>>
       focal == <<T("f0")>> \o call \o <<P("fs", Var("s")), P("fctx", Ctx), P("fi2", IsSetE("x2")), P("fiq", IsSetE("q2")), T("f1")>>
@@ -69,12 +75,14 @@ MkC(par) ==
               <<P("zs", Var("s")), P("zctx", Ctx), P("zi2", IsSetE("x2")), P("ziq", IsSetE("q2")), P("zir", IsSetE("r")), T("post")>>
   IN [ts |-> <<Tm("main", "", <<"lib">>, main), Tm("lib", "", <<>>, r.bl), cal, lay1, lay2,
                Tm("cal2", "", <<>>, <<T("n0"), Ret("nr", Lit("nv"))>>), Tm("cal3", "", <<>>, <<T("n3")>>),
+               Tm("calown", "", <<>>, <<T("co0"), BlockS("cob", "ib", <<>>, NoE, <<T("CALIB")>>), YieldS("coy", "ib", <<>>, NoE), T("co1")>>),
                Tm("cca", "", <<>>, <<T("ca")>>), Tm("ccb", "", <<>>, <<T("cb"), P("cbx", Ctx)>>)>> \o r.ts,
       globals |-> NoVarsMap, runs |-> <<RunR("main", NoVarsMap, "D")>>,
       tag |-> PathTag(path) \o "|" \o site \o "|" \o shape \o "|" \o rk]
 
 cParams == {p \in PathsUpTo(SiteKinds, Depth) \X Sites \X Shapes \X Returns :
-              /\ (p[2] \in {"incifmissing", "includemissing", "execmissing", "incifbroken", "includebroken", "execbroken"} => p[3] = "plain" /\ p[4] = "none")
+              /\ (p[2] \in {"incifmissing", "includemissing", "execmissing", "incifbroken", "includebroken", "execbroken",
+                            "execown", "issetexecown", "includeown", "incifown"} => p[3] = "plain" /\ p[4] = "none")
               /\ (p[2] = "includecomputed" => p[4] = "none")
               /\ (p[2] \in {"execctxnil", "includectxnil", "incifctxnil"} => p[4] \in {"none", "top", "retctx"})
               /\ (p[4] # "none" => p[2] \in {"exec", "execctx", "include", "execctxnil", "includectxnil", "incifctxnil"})
